@@ -134,21 +134,20 @@ def build(repo, trace):
         i, j, k = rsx.find_fn(src, name, a, b)
         f = src[rsx.line_start(src, i):k]
         m = re.search(r'( *)self\.%s\.get_or_insert_with\(\|\| \{\n((?:.*\n)*?)\1\}\)\n' % fld, f)
-        if not m:
-            raise ExtractError('RenderHandle::%s: R-getorinsert site changed' % name)
-        ind = m.group(1)
-        expr = m.group(2).strip()
-        f = (f[:m.start()] + '%sif self.%s.is_none() {   // R-getorinsert\n%s    self.%s = Some(%s);\n%s}\n%sself.%s.as_ref().unwrap()\n' % (ind, fld, ind, fld, expr, ind, ind, fld) + f[m.end():])
-        trace.fire('R-getorinsert')
+        if m:   # otherwise the function is taken as it stands (e.g. already written out as is_none / Some / unwrap)
+            ind = m.group(1)
+            expr = m.group(2).strip()
+            f = (f[:m.start()] + '%sif self.%s.is_none() {   // R-getorinsert\n%s    self.%s = Some(%s);\n%s}\n%sself.%s.as_ref().unwrap()\n' % (ind, fld, ind, fld, expr, ind, ind, fld) + f[m.end():])
+            trace.fire('R-getorinsert')
         fns.append(f)
     # simplify
     i, j, k = rsx.find_fn(src, 'simplify', a, b)
     f = src[rsx.line_start(src, i):k]
     q = 'RenderHandle::simplify'
-    f, n = re.subn(r'if &(\w+)\.0 != trace \{', r'if \1.0.ne_(trace) {   // R-ne', f)
-    if n != 1:
+    f, n = re.subn(r'&(\w+)\.0 != trace\b', r'\1.0.ne_(trace)', f)   # R-ne, wherever the comparison stands (an `if`, a match guard)
+    if n < 1:
         raise ExtractError('%s: R-ne site changed' % q)
-    trace.fire('R-ne')
+    trace.fire('R-ne', n)
     f, n = re.subn(r'\btrace\.clone\(\)', 'trace.clone_()', f)
     trace.fire('R-clone', n)
     f, n = re.subn(r'(\w+)\.recycle\(shape_storage, tape_storage\);', r'recycle_box(\1, shape_storage, tape_storage);   // R-box-recycle', f)
